@@ -940,3 +940,109 @@ pub fn c18_case(seed: u64, flavour: u64) -> HCase {
     cfg.num_threads = *rc.pick(&[1usize, 1, 2]);
     HCase { seed, cfg, idle_timeout_secs: 3600, ops, check_reports: false, use_async: false }
 }
+
+// ------------------------------------------------------------------------------------------ VEC
+
+use crate::vecsc::{VCase, VOp};
+
+fn gen_vec(r: &mut Rng, dim: usize, pool: &mut Vec<Vec<f32>>) -> Vec<f32> {
+    // sometimes an exact duplicate of an earlier vector, sometimes near-zero norm
+    if !pool.is_empty() && r.chance(1, 8) {
+        return r.pick(pool).clone();
+    }
+    let scale = *r.pick(&[1.0f32, 1.0, 10.0, 0.001]);
+    let v: Vec<f32> = (0..dim).map(|_| ((r.below(2001) as f32) / 1000.0 - 1.0) * scale).collect();
+    pool.push(v.clone());
+    v
+}
+
+pub fn vec_case(seed: u64) -> VCase {
+    let mut rw = Rng::new(seed, P_WORK);
+    let dim = rw.range(1, 8) as usize;
+    let metric = rw.pick(&["cosine", "euclidean", "dot", "manhattan"]).to_string();
+    let n = rw.range(4, 40) as usize;
+    let mut pool: Vec<Vec<f32>> = Vec::new();
+    let mut ops = Vec::new();
+    let mut next_id = 1usize;
+    let mut ids: Vec<usize> = Vec::new();
+    for _ in 0..n {
+        match rw.below(20) {
+            0..=7 => {
+                let id = if !ids.is_empty() && rw.chance(1, 6) { *rw.pick(&ids) } else {
+                    next_id += rw.range(1, 3) as usize;
+                    next_id
+                };
+                if !ids.contains(&id) {
+                    ids.push(id);
+                }
+                let d = if rw.chance(1, 25) { dim + 1 } else { dim };
+                ops.push(VOp::Insert { id, v: gen_vec(&mut rw, d, &mut pool) });
+            }
+            8..=9 => {
+                let k = rw.range(2, 12) as usize;
+                let mut entries = Vec::new();
+                for _ in 0..k {
+                    next_id += 1;
+                    ids.push(next_id);
+                    entries.push((next_id, gen_vec(&mut rw, dim, &mut pool)));
+                }
+                ops.push(VOp::InsertBatch { entries });
+            }
+            10..=12 => {
+                let id = if !ids.is_empty() && rw.chance(5, 6) { *rw.pick(&ids) } else { 9999 };
+                ops.push(VOp::Delete { id });
+            }
+            13 => ops.push(VOp::Rebuild),
+            14 => ops.push(VOp::SaveLoad),
+            _ => {
+                let k = *rw.pick(&[1usize, 3, 10, 100]);
+                let ef = *rw.pick(&[None, Some(1usize), Some(k), Some(50), Some(200)]);
+                ops.push(VOp::Search { q: gen_vec(&mut rw, dim, &mut pool), k, ef });
+            }
+        }
+    }
+    ops.push(VOp::Search { q: gen_vec(&mut rw, dim, &mut pool), k: 100, ef: Some(200) });
+    if rw.chance(1, 2) {
+        ops.push(VOp::SaveLoad);
+        ops.push(VOp::Search { q: gen_vec(&mut rw, dim, &mut pool), k: 10, ef: Some(200) });
+    }
+    VCase { seed, metric, m: *rw.pick(&[4usize, 8, 16]), ef_construction: *rw.pick(&[20usize, 100, 200]), ef_search: *rw.pick(&[10usize, 50, 200]), ops }
+}
+
+// ------------------------------------------------------------------------------------------ LSH
+
+use crate::lshsc::{LCase, LOp};
+
+pub fn lsh_case(seed: u64) -> LCase {
+    let mut rw = Rng::new(seed, P_WORK);
+    let nthreads = rw.range(2, 3) as usize;
+    let dims = [2usize, 3, 3, 5];
+    // a small pool so that different dimensions share (table, hyperplane count) pairs
+    let pool: Vec<Vec<f32>> = (0..6)
+        .map(|_| {
+            let d = *rw.pick(&dims);
+            (0..d).map(|_| (rw.below(2001) as f32) / 1000.0 - 1.0).collect()
+        })
+        .collect();
+    let mut threads = Vec::new();
+    for _ in 0..nthreads {
+        let n = rw.range(2, 6) as usize;
+        let mut ops = Vec::new();
+        for _ in 0..n {
+            let v = rw.pick(&pool).clone();
+            let table = rw.below(3) as i64;
+            let hp = *rw.pick(&[4usize, 8, 8, 16]);
+            match rw.below(12) {
+                0..=4 => ops.push(LOp::Bucket { v, table, hp }),
+                5 => ops.push(LOp::Buckets { v, tables: rw.range(1, 3) as usize, hp }),
+                6 => ops.push(LOp::BucketDist { v, table, hp }),
+                7 => ops.push(LOp::Prewarm { table, hp, dim: *rw.pick(&dims) }),
+                8 => ops.push(LOp::Clear),
+                _ => ops.push(LOp::Resize { n: rw.below(4) as usize }),
+            }
+        }
+        threads.push(ops);
+    }
+    let mut rs = Rng::new(seed, 9);
+    LCase { seed, threads, sched: Some(gen_sched(&mut rs, nthreads)), sched_seed: rs.next() }
+}
